@@ -131,7 +131,8 @@ def main(argv) -> int:
                     stale.remove(sig)
             continue
         try:
-            small = core.shrink(case, lambda c, sig=sig: sig in _sigs(mod, c), budget=budget)
+            valid = getattr(mod, "valid_case", lambda c: True)
+            small = core.shrink(case, lambda c, sig=sig: valid(c) and sig in _sigs(mod, c), budget=budget)
             for s2, d2 in mod.check_case(small):
                 if s2 == sig:
                     detail = d2
